@@ -56,10 +56,10 @@ META = {
     ),
     "bound": {
         "quick": "pool of 12 colliding documents (222 operations); bfs over the 72 whole-document operations to closure (cap depth 8); all histories of length 2 "
-                 "whose first call is a whole-document call with caching on and whose second is any operation except single pages with caching off (36 x 148); every whole-document operation after a document that interns 34000 distinct names; all 20 interleavings of the 3+3 "
+                 "whose first call is a whole-document call with caching on and whose second is any operation except single pages with caching off (36 x 148); every whole-document operation after a document that interns 34000 distinct names; encrypted documents (RC4-40, RC4-128, V4/V2, AESV2, AESV3 x 2 file keys, same plaintext and object numbers): every ordered pair A then B x {text, pages, xml; text with caching off}, plus interleaved iterators of the two keys of each family; all 20 interleavings of the 3+3 "
                  "next() calls of every document pair incl. a document with itself (78 pairs; caching on, for a document with itself also off/off and on/off); "
                  "all 3- and 4-subsets of a 3x3 grid x 2 boxes_flow",
-        "thorough": "same pool; bfs over all 222 operations to closure; the 34000-names prefix as quick; all histories of length 3 over the 36 whole-document calls followed by "
+        "thorough": "same pool; bfs over all 222 operations to closure; the 34000-names prefix as quick; encrypted documents: all ordered triples (text) in addition to the pairs; all histories of length 3 over the 36 whole-document calls followed by "
                     "any of the 222 operations at depth 2 and the 36 at depth 3; interleavings as quick; 3-,4-,5-subsets of the grid x 4 boxes_flow",
     },
     "assumptions": [
@@ -72,7 +72,8 @@ META = {
         "id() is replaced by a creation-order counter (harness-side module attribute, no source change) so that address "
         "dependence becomes deterministic history dependence; real address layouts are not enumerated",
         "histories longer than the tree bound are covered only through the state-digest argument of the bfs",
-        "password handling, image export and the html/hocr/tag converters are not part of the operations",
+        "encrypted documents are written by the independent reference handler mc/refs/security.py (empty user password); password handling itself is C10's",
+        "image export and the html/hocr/tag converters are not part of the operations",
     ],
 }
 
@@ -332,6 +333,7 @@ def build_pool() -> dict:
     )
     pool["leak"] = _build_leak()
     pool["bignames"] = _build_bignames()
+    pool.update(_build_crypt())
     # -- distance ties between text boxes
     f = _font("FontA", N("WinAnsiEncoding"), fixed=True)
     pool["ties"] = grid_doc([0, 2, 4, 6, 8], font=f, second=[1, 3, 5, 7])
@@ -461,6 +463,40 @@ def _build_bignames():
     d.set(pages, {"Type": N("Pages"), "Kids": [p1], "Count": 1, "MediaBox": [0, 0, 612, 792]})
     d.set(p1, {"Type": N("Page"), "Parent": pages, "Resources": {"Font": {"F1": f}}, "Contents": s1})
     return d.write(cat)
+
+
+# encrypted documents: every handler family x two different file keys, same plaintext, same object numbers
+CRYPT_CFGS = [(1, 2, 40, "RC4"), (2, 3, 128, "RC4"), (4, 4, 128, "V2"), (4, 4, 128, "AESV2"), (5, 6, 256, "AESV3")]
+CRYPT_DOCS = [f"enc-V{c[0]}R{c[1]}-{c[2]}-{c[3]}-k{k}" for c in CRYPT_CFGS for k in (1, 2)]
+
+
+def _build_crypt() -> dict:
+    """Written with the independent reference handler of mc/refs/security.py (validated there against the repository's
+    third-party encrypted samples).  Key 1 and key 2 differ in /ID and owner password, hence in the file key."""
+    import mc.refs.security as S
+
+    enc = lambda base, diffs: {"Type": N("Encoding"), "BaseEncoding": N(base), "Differences": diffs}
+    out = {}
+    for cfg in CRYPT_CFGS:
+        for k in (1, 2):
+            d = Doc()
+            cat, pages, p1, p2 = d.reserve(), d.reserve(), d.reserve(), d.reserve()
+            tu = d.add(Stream({}, tounicode_cmap(bfchars=[(b"A", "\u0416"), (b"B", "\u0417")])))
+            f1 = d.add(_font("FontA", N("WinAnsiEncoding"), tounicode=tu))
+            f2 = d.add(_font("FontA", enc("WinAnsiEncoding", [67, N("eta")])))
+            res = d.add({"Font": {"F1": f1, "F2": f2, "F3": _cidfont("Ryumin", "90ms-RKSJ-H")}})  # encrypted CIDSystemInfo strings
+            s1 = d.add(Stream({}, _text("F1", 12, 72, 700, b"ABCD") + _text("F3", 12, 72, 600, HexStr(b"\x82\xa0"))))
+            s2 = d.add(Stream({}, _text("F2", 12, 72, 700, b"ABCD") + _text("F1", 12, 72, 650, b"AB") + _text("F3", 12, 72, 600, HexStr(b"\x82\xa2"))))
+            info = d.add({"Title": b"secret title", "Producer": b"verif"})
+            d.set(cat, {"Type": N("Catalog"), "Pages": pages})
+            d.set(pages, {"Type": N("Pages"), "Kids": [p1, p2], "Count": 2, "MediaBox": [0, 0, 612, 792]})
+            d.set(p1, {"Type": N("Page"), "Parent": pages, "Resources": res, "Contents": s1})
+            d.set(p2, {"Type": N("Page"), "Parent": pages, "Resources": res, "Contents": s2})
+            ident = hashlib.md5(b"verif-c12-id-%d" % k).digest()
+            h = S.Handler(S.Cfg(*cfg), "", "owner%d" % k, -44, ident, salt=("c12", cfg, k))
+            pdf, _ = S.write_pdf(S.Plain(dict(d.objs), cat, info, (ident, ident)), h)
+            out[f"enc-V{cfg[0]}R{cfg[1]}-{cfg[2]}-{cfg[3]}-k{k}"] = pdf
+    return out
 
 
 def grid_doc(cells, font=None, second=None) -> bytes:
@@ -1051,6 +1087,58 @@ def shard_names(st):
     st.sample({"family": "names", "history": [list(BIG_OP)], "distinct_names_in_prefix_document": BIGNAMES, "interned": after - before})
 
 
+# ------------------------------------------------------------------------ crypt shards
+CRYPT_OPS = [(d, k, True, None) for d in CRYPT_DOCS for k in KINDS]
+
+
+def _crypt(args):
+    """Child: extract encrypted document A, then every operation on every encrypted document in a grandchild
+    (thorough: with one more encrypted document in between)."""
+    first, deeper = args
+    install_id("asc")
+    R = _REFS
+    got = run_op(first)
+    out = [((), first, rhash(got), None if got == R[first] else got)]
+
+    def leaf(op):
+        g = run_op(op)
+        res = [((first,), op, rhash(g), None if g == R[op] else g)]
+        if deeper and op[1] == "text":
+            def leaf2(op2):
+                g2 = run_op(op2)
+                return ((first, op), op2, rhash(g2), None if g2 == R[op2] else g2)
+            res += [fork_call(leaf2, (d, "text", True, None)) for d in CRYPT_DOCS]
+        return res
+
+    for op in CRYPT_OPS + [(d, "text", False, None) for d in CRYPT_DOCS]:
+        out += fork_call(leaf, op)
+    return out
+
+
+def shard_crypt(st, first_doc, tier):
+    ops = CRYPT_OPS + [(d, "text", False, None) for d in CRYPT_DOCS]
+    R = refs(ops)
+    first = (first_doc, "text", True, None)
+    res = fork_call(_crypt, (first, tier == "thorough"))
+    for hist, op, rh, bad in res:
+        st.transitions += 1
+        st.states += 1
+        st.case(("crypt", hist, op), nontrivial=len(hist) > 0, outcome=rh)
+        if bad is not None:
+            _record(st, hist, op, R[op], bad, "crypt")
+    st.traces += sum(1 for hist, *_ in res if len(hist) == (2 if tier == "thorough" else 1))
+    # plaintext must be what was written, whatever the key: all variants of the family read alike
+    if first_doc == CRYPT_DOCS[0]:
+        texts = {d: R[(d, "text", True, None)] for d in CRYPT_DOCS}
+        for d in CRYPT_DOCS[1:]:
+            st.case(("crypt-same-plaintext", d), nontrivial=True, outcome=rhash(texts[d]))
+            if texts[d] != texts[CRYPT_DOCS[0]]:
+                st.violation("C12/encrypted-variants-read-differently", {"family": "history", "docs": {d: pool()[d], CRYPT_DOCS[0]: pool()[CRYPT_DOCS[0]]},
+                             "history": [], "op": [d, "text", True, None]}, texts[CRYPT_DOCS[0]][1][:1], texts[d][1][:1],
+                             "same plaintext under another handler/key extracts differently in a fresh process")
+        st.sample({"family": "crypt", "history": [list(first)], "then": [list(o) for o in CRYPT_OPS[:4]], "documents": CRYPT_DOCS})
+
+
 # ------------------------------------------------------------------ interleave shards
 def _interleave(args):
     (da, ca), (db, cb), sched = args
@@ -1149,6 +1237,9 @@ def shards(tier):
     # references are computed here, in forks of the (import-only) parent, and inherited by the pool workers
     refs(par=8)
     out = [("ref",), ("bfs",), ("names",)]
+    out += [("crypt", d) for d in CRYPT_DOCS]
+    # interleaved iterators over two encrypted documents with different keys (same handler family, and across the RC4 families)
+    out += [("il", CRYPT_DOCS[i], CRYPT_DOCS[i + 1]) for i in range(0, len(CRYPT_DOCS), 2)] + [("il", CRYPT_DOCS[0], CRYPT_DOCS[3]), ("il", CRYPT_DOCS[2], CRYPT_DOCS[5])]
     out += [("tree", op) for op in WHOLE_OPS]
     out += [("il", a, b) for i, a in enumerate(DOCS) for b in DOCS[i:]]
     subs = grid_subsets(tier)
@@ -1164,6 +1255,8 @@ def run_shard(shard, tier, st):
         shard_bfs(st, tier)
     elif fam == "names":
         shard_names(st)
+    elif fam == "crypt":
+        shard_crypt(st, shard[1], tier)
     elif fam == "tree":
         shard_tree(st, shard[1], tier)
     elif fam == "il":
